@@ -2706,7 +2706,16 @@ class Interp:
         return Const(all(self.truth(x, n) for x in self.iterate(a[0], n)))
 
     def p_take(self, a, k, n):
-        return ListV(self.iterate(a[1], n), lazy=True)
+        items = self.iterate(a[1], n)
+        cnt = a[0]
+        if isinstance(cnt, Const) and isinstance(cnt.v, int) and not isinstance(cnt.v, bool):
+            return ListV(items[:max(cnt.v, 0)], lazy=True)
+        if isinstance(cnt, Sym) and items and not (isinstance(cnt, Const)):
+            # an unknown count and known items: either everything is taken or the tail is cut - the same fact a printer's own test
+            # "len(value) > limit" decides; a cut is represented by dropping the last item
+            if self.decide('%s < %d' % (_prov(cnt), len(items))):
+                return ListV(items[:-1], lazy=True)
+        return ListV(items, lazy=True)
 
     def p_StringIO(self, a, k, n):
         if not getattr(self, 'concrete_context', False) or k or len(a) > 1:
@@ -2717,6 +2726,8 @@ class Interp:
 
     def p_islice(self, a, k, n):
         if not getattr(self, 'concrete_context', False):
+            if len(a) == 2:
+                return self.p_take([a[1], a[0]], k, n)      # islice(xs, stop): everything, or - on a path of its own - a cut tail
             return ListV(self.iterate(a[0], n))
         bounds = [x.v if isinstance(x, Const) else Ellipsis for x in a[1:]]
         if Ellipsis in bounds or not 1 <= len(bounds) <= 3 or any(b is not None and not isinstance(b, int) for b in bounds):
